@@ -231,3 +231,82 @@ pub fn format_job(job: &J) -> J {
         })
     })
 }
+
+/// job: {id, src, run?: bool, limit_ms?} -> {status: "ok", stages: {lex, parse, compile, format, format_narrow, run}}
+/// Host safety (C06): every stage of the front end (and, when asked, execution and display) is run on the
+/// text under its own catch_unwind; a stage's entry is "ok", "err" (a Result::Err was returned and rendered)
+/// or "panic: <message>".
+pub fn safety_job(job: &J) -> J {
+    let id = job.get("id").cloned().unwrap_or(J::Null);
+    let src = job.get("src").and_then(|v| v.as_str()).unwrap_or("").to_string();
+    let run = job.get("run").and_then(|v| v.as_bool()).unwrap_or(false);
+    let mut stages = serde_json::Map::new();
+    let mut stage = |name: &str, f: &mut dyn FnMut() -> bool| {
+        let r = catch_unwind(AssertUnwindSafe(|| f()));
+        let v = match r {
+            Ok(true) => "ok".to_string(),
+            Ok(false) => "err".to_string(),
+            Err(_) => format!("panic: {}", take_panic().unwrap_or_default()),
+        };
+        stages.insert(name.to_string(), J::String(v));
+    };
+    stage("lex", &mut || {
+        let mut n = 0usize;
+        for t in koto_lexer::Lexer::new(&src) {
+            let _ = t.slice(&src);
+            n += 1;
+            if n > 1_000_000 {
+                break;
+            }
+        }
+        true
+    });
+    stage("parse", &mut || match Parser::parse(&src) {
+        Ok(_) => true,
+        Err(e) => {
+            let _ = e.to_string();
+            let _ = format!("{e:?}");
+            false
+        }
+    });
+    stage("compile", &mut || {
+        let mut koto = koto::Koto::default();
+        match koto.compile(src.as_str()) {
+            Ok(_) => true,
+            Err(e) => {
+                // the rendering a host shows to its user (source excerpt included)
+                let _ = e.to_string();
+                let _ = format!("{e:?}");
+                false
+            }
+        }
+    });
+    stage("format", &mut || match koto_format::format(&src, FormatOptions::default()) {
+        Ok(_) => true,
+        Err(e) => {
+            let _ = e.to_string();
+            false
+        }
+    });
+    stage("format_narrow", &mut || {
+        let o = FormatOptions { line_length: 12, indent_width: 3, chain_break_threshold: 1, always_indent_arms: true };
+        match koto_format::format(&src, o) {
+            Ok(_) => true,
+            Err(e) => {
+                let _ = e.to_string();
+                false
+            }
+        }
+    });
+    if run {
+        let job2 = job.clone();
+        stage("run", &mut || {
+            let (mut vm, _cap) = crate::run::make_vm(&job2);
+            let out = crate::run::run_script(&mut vm, &job2, &src);
+            out.get("status").and_then(|s| s.as_str()) == Some("ok")
+        });
+    }
+    let mut out = json!({"status": "ok", "stages": J::Object(stages)});
+    out["id"] = id;
+    out
+}
